@@ -113,3 +113,29 @@ def dirOkDoc : SchemaDoc :=
                  locations := [str "OBJECT", str "ARGUMENT_DEFINITION"], repeatable := false, pos := pos 1 } ])
 
 end Gql.Examples
+
+namespace Gql.Examples
+open Gql
+
+/- documents for the completeness theorem and its hypothesis `MergedDoc` -/
+
+def skipUse : Directive := { name := str "skip", args := [], pos := pos 0 }
+def typeASkip : Definition := { typeA with dirs := [skipUse] }
+
+/-- prelude `directive @skip on FIELD` (source 0), then the user's `directive @skip on OBJECT`, and
+    `type A @skip { a: Int }`: the user's declaration is in force -/
+def redeclOkDoc : SchemaDoc :=
+  doc (miniPrelude ++ [typeASkip]) (dirs := [dirDef "skip" 1 ["FIELD"] 0, dirDef "skip" 2 ["OBJECT"] 1])
+
+/-- the same with the user's declaration placed BEFORE the prelude's (not a merge `ParseSchemas` builds) -/
+def redeclUserFirstDoc : SchemaDoc :=
+  doc (miniPrelude ++ [typeASkip]) (dirs := [dirDef "skip" 2 ["OBJECT"] 1, dirDef "skip" 1 ["FIELD"] 0])
+
+/-- a source-0 directive that is not one of the loader's six built-ins, declared once more by the user -/
+def redeclFooDoc : SchemaDoc :=
+  doc (miniPrelude ++ [typeA]) (dirs := [dirDef "foo" 1 ["FIELD"] 0, dirDef "foo" 2 ["OBJECT"] 1])
+
+/-- `extend scalar __X` marked built in, without a base definition -/
+def builtinExtDoc : SchemaDoc := doc (miniPrelude ++ [typeA]) (exts := [defn .scalar "__X" 1 (builtIn := true)])
+
+end Gql.Examples
